@@ -5,7 +5,7 @@ BOUNDS = {
 }
 OUTSIDE = "all rank profiles: the pivot structure (K) is concrete per query; fully symbolic inputs are out of reach (PLUQ control)"
 ASSUMPTIONS = ["PASSIVE: K concrete per query; last row concrete"]
-FS = ("--max-field-sensitivity-array-size", "1000")
+FS = ("--max-field-sensitivity-array-size", "400")
 
 def plan(tier, seed):
     T = tier == "thorough"
